@@ -174,6 +174,9 @@ def pinned_ids():
     return set(json.load(open("/root/.vp/BASELINE.json"))["stable_pass"])
 
 
+ALL_CHECKS = ["C%02d" % i for i in range(1, 21)]
+
+
 def run_one(args):
     idx, site, pinned = args
     tmp = tempfile.mkdtemp(prefix="verde_auto_")
@@ -210,10 +213,12 @@ def run_one(args):
             res["pinned_failed"] = killed[:3]
             return res
         checks = checks_for(site)
+        if site.get("stage2"):
+            checks = checks + [c for c in ALL_CHECKS if c not in checks]
         res["checks"] = checks
         caught = []
         for c in checks:
-            env2 = dict(os.environ, VERIF_REPO=tree, VERIF_OUT=os.path.join(tmp, "out"), VERIF_WORKERS="8")
+            env2 = dict(os.environ, VERIF_REPO=tree, VERIF_OUT=os.path.join(tmp, "out"), **({} if site.get("stage2") else {"VERIF_WORKERS": "8"}))
             r = subprocess.run([os.path.join(VERIF, "run_check.py"), c, "--tier", "quick"], env=env2, capture_output=True, text=True)
             if r.returncode == 1 and "VIOLATION" in r.stdout:
                 first = [ln_ for ln_ in r.stdout.splitlines() if ln_.startswith("[") or ln_.startswith("regression")]
@@ -239,6 +244,7 @@ def main():
     ap.add_argument("--jobs", type=int, default=4)
     ap.add_argument("--files")
     ap.add_argument("--list", action="store_true")
+    ap.add_argument("--stage2", help="JSON results of a first pass: re-run its survivors against all 20 quick checks in the registered configuration")
     ap.add_argument("--out", default=os.path.join(VERIF, "mutants", "AUTO_RESULTS"))
     a = ap.parse_args()
     files = FILES if not a.files else [f for f in FILES if any(f.endswith(x) for x in a.files.split(","))]
@@ -254,6 +260,9 @@ def main():
     rng = random.Random(a.seed)
     rng.shuffle(allsites)
     chosen = allsites[: a.n]
+    if a.stage2:
+        chosen = [dict({k: r[k] for k in ("file", "line", "col", "old", "new", "kind", "owner", "text")}, stage2=True) for r in json.load(open(a.stage2))
+                  if r["verdict"] in ("survived", "harness-error")]
     pinned = pinned_ids()
     print("sites: %d, sampled: %d" % (len(allsites), len(chosen)), flush=True)
     results = []
